@@ -339,6 +339,30 @@ func init() {
 					}
 				}
 				if !found {
+					// ... or in a constructor of the internal-panic condition that the handler calls
+					ast.Inspect(efd.Body, func(n ast.Node) bool {
+						lit, isLit := n.(*ast.FuncLit)
+						if !isLit || !isDeferredLit(efd, lit) {
+							return true
+						}
+						hasRecover := false
+						var via *ast.CallExpr
+						for _, ce := range callsIn(lit.Body, false) {
+							if id, isId := ast.Unparen(ce.Fun).(*ast.Ident); isId && id.Name == "recover" {
+								hasRecover = true
+							}
+							if m, ok := c.panicWrapHelper(originOf(Callee(epkg.TypesInfo, ce))); ok && m {
+								via = ce
+							}
+						}
+						if hasRecover && via != nil && !found {
+							found = true
+							obs = append(obs, mkOb(c, "PANICMARK.shape", eu, "GoStack store", via, Proved, "stored by the internal-panic constructor that eval's deferred recover handler calls", true))
+						}
+						return true
+					})
+				}
+				if !found {
 					obs = append(obs, mkOb(c, "PANICMARK.shape", eu, "GoStack store", efd, Violated, "eval's deferred recover handler no longer marks recovered panics with GoStack", true))
 				}
 			}
@@ -347,6 +371,75 @@ func init() {
 }
 
 var _ = cfg.KindBody
+
+// panicWrapHelper: fn is a function of the kernel every return of which hands
+// back one local whose only definitions are ErrorConditionf(CondInternalPanic,
+// ...) calls — a constructor of the internal-panic condition.  marks reports
+// whether it also stores the GoStack marker.
+func (c *Ctx) panicWrapHelper(fn *types.Func) (marks bool, ok bool) {
+	fd := c.declOf[fn]
+	if fn == nil || fd == nil || fd.Body == nil {
+		return false, false
+	}
+	info := c.pkgOf[fd].TypesInfo
+	condConst := c.Pkg("lisp").Types.Scope().Lookup("CondInternalPanic")
+	gs := c.LookupField("lisp.CallStack.GoStack")
+	if condConst == nil {
+		return false, false
+	}
+	var res types.Object
+	okRet, nret := true, 0
+	ast.Inspect(fd.Body, func(n ast.Node) bool {
+		if _, isLit := n.(*ast.FuncLit); isLit {
+			return false
+		}
+		if rs, isRet := n.(*ast.ReturnStmt); isRet {
+			nret++
+			if len(rs.Results) != 1 {
+				okRet = false
+				return true
+			}
+			o := identObj(info, rs.Results[0])
+			if o == nil || (res != nil && o != res) {
+				okRet = false
+			}
+			res = o
+		}
+		return true
+	})
+	if !okRet || nret == 0 || res == nil {
+		return false, false
+	}
+	ndef := 0
+	ast.Inspect(fd.Body, func(n ast.Node) bool {
+		as, isAs := n.(*ast.AssignStmt)
+		if !isAs {
+			return true
+		}
+		for i, l := range as.Lhs {
+			if identObj(info, l) != res {
+				continue
+			}
+			ndef++
+			good := false
+			if len(as.Lhs) == len(as.Rhs) {
+				if ce, isCall := ast.Unparen(as.Rhs[i]).(*ast.CallExpr); isCall && len(ce.Args) >= 1 {
+					if f := Callee(info, ce); f != nil && f.Name() == "ErrorConditionf" && identObj(info, ce.Args[0]) == condConst {
+						good = true
+					}
+				}
+			}
+			if !good {
+				okRet = false
+			}
+		}
+		if len(as.Lhs) == 1 && gs != nil && FieldOfSelector(info, as.Lhs[0]) == gs {
+			marks = true
+		}
+		return true
+	})
+	return marks, okRet && ndef > 0
+}
 
 // blocksWith returns the live blocks containing a node accepted by pred.
 func (f *FCFG) blocksWith(pred func(n ast.Node) bool) map[*cfg.Block]bool {
@@ -612,6 +705,7 @@ func init() {
 				return []Obligation{mkOb(c, "PANICMARK.recover-wraps", u, "recover value", lit, Undecided, "recover() result not bound", false)}
 			}
 			var obs []Obligation
+			wrapHelpers := map[*types.Func]bool{}
 			isWrap := func(n ast.Node) bool {
 				as, ok := n.(*ast.AssignStmt)
 				if !ok || len(as.Lhs) != 1 || len(as.Rhs) != 1 || identObj(info, as.Lhs[0]) != resObj {
@@ -622,7 +716,14 @@ func init() {
 					return false
 				}
 				f := Callee(info, ce)
-				return f != nil && f.Name() == "ErrorConditionf" && identObj(info, ce.Args[0]) == condConst
+				if f != nil && f.Name() == "ErrorConditionf" && identObj(info, ce.Args[0]) == condConst {
+					return true
+				}
+				if _, isW := c.panicWrapHelper(originOf(f)); isW {
+					wrapHelpers[originOf(f)] = true
+					return true
+				}
+				return false
 			}
 			// all assignments to result in the closure are wraps
 			other := 0
@@ -675,7 +776,13 @@ func init() {
 				as, ok := n.(*ast.AssignStmt)
 				return ok && len(as.Lhs) == 1 && FieldOfSelector(info, as.Lhs[0]) == gs
 			})
-			if len(gstores) > 0 {
+			helperMarks := false
+			for h := range wrapHelpers {
+				if m, _ := c.panicWrapHelper(h); m {
+					helperMarks = true
+				}
+			}
+			if len(gstores) > 0 || helperMarks {
 				obs = append(obs, mkOb(c, "PANICMARK.recover-wraps", u, "marker stored", lit, Proved, "the handler stores GoStack on the wrapped error's stack", false))
 			} else {
 				obs = append(obs, mkOb(c, "PANICMARK.recover-wraps", u, "marker stored", lit, Violated, "the recover handler does not store the GoStack marker", true))
